@@ -31,6 +31,9 @@ type Hooks struct {
 	Items func(site int, name string, items []Code) []Code
 	// UseFunc chooses the ...Func variant (callback adding the items) for this site.
 	UseFunc func(site int, name string) bool
+	// EarlyAdd adds every top-level declaration's (still empty) statement to the File first and
+	// completes it afterwards through the retained pointer - the DSL holds statements by reference.
+	EarlyAdd bool
 }
 
 // grp builds one list construct on s.
@@ -597,15 +600,17 @@ func (c *Conv) spec(sp ast.Spec) *Statement {
 	return Null()
 }
 
-func (c *Conv) genDecl(d *ast.GenDecl) *Statement {
-	var kw *Statement
+func (c *Conv) genDecl(d *ast.GenDecl) *Statement { return c.genDeclOn(newSt(), d) }
+
+// genDeclOn builds the declaration on an existing (possibly already added) statement.
+func (c *Conv) genDeclOn(kw *Statement, d *ast.GenDecl) *Statement {
 	switch d.Tok {
 	case token.VAR:
-		kw = Var()
+		kw.Var()
 	case token.CONST:
-		kw = Const()
+		kw.Const()
 	case token.TYPE:
-		kw = Type()
+		kw.Type()
 	default:
 		c.Skip = "unexpected gendecl " + d.Tok.String()
 		return Null()
@@ -620,8 +625,11 @@ func (c *Conv) genDecl(d *ast.GenDecl) *Statement {
 	return kw.Add(c.spec(d.Specs[0]))
 }
 
-func (c *Conv) funcDecl(d *ast.FuncDecl) *Statement {
-	st := Func()
+func (c *Conv) funcDecl(d *ast.FuncDecl) *Statement { return c.funcDeclOn(newSt(), d) }
+
+// funcDeclOn builds the declaration on an existing (possibly already added) statement.
+func (c *Conv) funcDeclOn(st *Statement, d *ast.FuncDecl) *Statement {
+	st.Func()
 	if d.Recv != nil {
 		c.grp(st, "Params", c.fieldList(d.Recv)...)
 	}
@@ -676,9 +684,21 @@ func (c *Conv) File(af *ast.File, realName func(path string) string) *File {
 			if d.Tok == token.IMPORT {
 				continue
 			}
-			f.Add(c.genDecl(d))
+			if c.Hooks.EarlyAdd {
+				st := newSt()
+				f.Add(st)
+				c.genDeclOn(st, d)
+			} else {
+				f.Add(c.genDecl(d))
+			}
 		case *ast.FuncDecl:
-			f.Add(c.funcDecl(d))
+			if c.Hooks.EarlyAdd {
+				st := newSt()
+				f.Add(st)
+				c.funcDeclOn(st, d)
+			} else {
+				f.Add(c.funcDecl(d))
+			}
 		default:
 			c.Skip = fmt.Sprintf("unhandled decl %T", d)
 		}
